@@ -23,6 +23,7 @@ use zcash_protocol::consensus::BlockHeight;
 use crate::db::{self, Snapshot, Wallet};
 use crate::universe::{Owner, Pool, Universe, POOLS};
 
+pub const TREE_CONFLICT_SIG: &str = "SIG:tree-insert-conflict-after-rewind";
 pub const EXPIRY_DELTA: u32 = 40; // DEFAULT_TX_EXPIRY_DELTA, documented in wallet/common.rs
 
 #[derive(Clone, Debug, Serialize, Deserialize, PartialEq, Eq, Hash, PartialOrd, Ord)]
@@ -97,6 +98,8 @@ pub struct Ctx<'a> {
 
 #[derive(Clone, Default)]
 pub struct FreshRef {
+    /// false = placeholder (no differential against a fresh linear scan)
+    pub valid: bool,
     pub mined_notes: Vec<String>,
     pub spends: Vec<String>,
     pub totals: BTreeMap<(u8, Pool), u64>,
@@ -253,7 +256,7 @@ pub fn apply(w: &mut Wallet, u: &Universe, m: &Model, op: &Op) -> Result<StepRes
                     }
                     Ok(StepResult::Done(n))
                 }
-                r => Ok(r),
+                StepResult::Refused(why) => Err(format!("{why} -- the wallet suggested {s}..{e} ({:?}) but scanning {from}..={to} of it fails, so a client working from that end never finishes syncing", first.priority())),
             }
         }
         Op::Scan { from, to } => {
@@ -263,7 +266,17 @@ pub fn apply(w: &mut Wallet, u: &Universe, m: &Model, op: &Op) -> Result<StepRes
             let r = mc_core::catch(|| scan_cached_blocks(&u.network, &src, &mut w.db, BlockHeight::from_u32(*from), &from_state, limit));
             match r {
                 Err(p) => Err(format!("panic in scan_cached_blocks({from}..={to}): {p}")),
-                Ok(Err(e)) => Err(format!("scan_cached_blocks({from}..={to}) on a well-formed connected chain failed: {e:?}")),
+                Ok(Err(e)) => {
+                    let txt = format!("{e:?}");
+                    if m.rewinds > 0 && txt.contains("PutBlocksCommitmentTree") && txt.contains("Insert(Conflict") {
+                        // Recorded finding (see known_findings.json, DESIGN.md section 6): after a
+                        // tip-first scan, truncation leaves a stale annotated node in the shard and a
+                        // later frontier insertion on the other branch conflicts with it. The scan is
+                        // refused atomically; C15 reports it (sync cannot proceed from that end).
+                        return Ok(StepResult::Refused(format!("{TREE_CONFLICT_SIG}: scan_cached_blocks({from}..={to}) failed: {txt}")));
+                    }
+                    Err(format!("scan_cached_blocks({from}..={to}) on a well-formed connected chain failed: {txt}"))
+                }
                 Ok(Ok(summary)) => {
                     let got = (u32::from(summary.scanned_range().start), u32::from(summary.scanned_range().end));
                     if got != (*from, *to + 1) {
@@ -589,7 +602,7 @@ pub fn check_balance(w: &mut Wallet, cx: &Ctx, m: &Model) -> Result<Vec<String>,
     // Differential against the fresh linear scan once everything up to the chain's end is scanned.
     let chain = &u.chains[m.chain];
     let complete = (u.first..=chain.tip()).all(|h| m.scanned.contains(&h));
-    if complete {
+    if complete && cx.fresh.get(m.chain).map(|f| f.valid).unwrap_or(false) {
         let fr = &cx.fresh[m.chain];
         let mut mn = vec![];
         let mut ms = vec![];
@@ -624,7 +637,7 @@ pub fn fresh_reference(u: &Universe, cfg: &Cfg, chain: usize) -> FreshRef {
         scan_cached_blocks(&u.network, &src, &mut w.db, BlockHeight::from_u32(h), u.state_before(chain, h), 1).expect("fresh linear scan");
     }
     let conn = w.db.conn();
-    let mut fr = FreshRef::default();
+    let mut fr = FreshRef { valid: true, ..Default::default() };
     for p in POOLS {
         fr.mined_notes.extend(db::query_rows(conn, &notes_sql(p, true)).into_iter().map(|r| format!("{p:?}:{r}")));
         fr.spends.extend(db::query_rows(conn, &spends_sql(p, true)).into_iter().map(|r| format!("{p:?}:{r}")));
@@ -936,6 +949,31 @@ pub struct Failure {
     pub msg: String,
 }
 
+impl Failure {
+    /// Failures that carry a defect signature are identified by it (one finding, many histories).
+    pub fn signature(&self) -> Option<&'static str> {
+        if self.msg.contains(TREE_CONFLICT_SIG) {
+            Some(TREE_CONFLICT_SIG)
+        } else {
+            None
+        }
+    }
+}
+
+fn push_failure(failures: &Mutex<Vec<Failure>>, f: Failure) {
+    let mut g = failures.lock().unwrap();
+    if let Some(sig) = f.signature() {
+        // keep the shortest history per signature
+        if let Some(existing) = g.iter_mut().find(|x| x.signature() == Some(sig)) {
+            if f.history.len() < existing.history.len() {
+                *existing = f;
+            }
+            return;
+        }
+    }
+    g.push(f);
+}
+
 pub type StateCheck = dyn Fn(&mut Wallet, &Ctx, &Model) -> Result<Vec<String>, String> + Sync;
 
 /// Level-synchronous parallel BFS from the freshly created wallet.
@@ -1002,7 +1040,7 @@ pub fn search(cx: &Ctx, checks: &[&StateCheck]) -> (SearchStats, Vec<Failure>) {
                     let pre_digest = if matches!(op, Op::Rewind { .. }) { Some(db::dump_digest(w.db.conn(), &[])) } else { None };
                     match apply(w, u, &src.model, op) {
                         Err(msg) => {
-                            failures.lock().unwrap().push(Failure { history: hist, msg });
+                            push_failure(&failures, Failure { history: hist, msg });
                             None
                         }
                         Ok(StepResult::Refused(why)) => {
@@ -1023,7 +1061,7 @@ pub fn search(cx: &Ctx, checks: &[&StateCheck]) -> (SearchStats, Vec<Failure>) {
                                 match c(w, cx, &model) {
                                     Ok(o) => outs.extend(o),
                                     Err(msg) => {
-                                        failures.lock().unwrap().push(Failure { history: hist.clone(), msg });
+                                        push_failure(&failures, Failure { history: hist.clone(), msg });
                                         ok = false;
                                         break;
                                     }
@@ -1064,7 +1102,7 @@ pub fn search(cx: &Ctx, checks: &[&StateCheck]) -> (SearchStats, Vec<Failure>) {
         if sk > 0 {
             break;
         }
-        if failures.lock().unwrap().len() >= 20 {
+        if failures.lock().unwrap().iter().filter(|f| f.signature().is_none()).count() >= 20 {
             stats.capped = Some("stopped after 20 failures".into());
             break;
         }
